@@ -1019,7 +1019,8 @@ def _prng():
 def _sim_case(draw):
     c = draw(CG.sym_circuits(max_w=3, max_ops=6, p_sym=0.55, leaves=3, measure=True, min_ops=1))
     keys = list(draw(st.permutations(CG.SYMS)))
-    return {"c": c, "sweep": draw(CG.sweep_trees(keys, depth=2)), "sim": draw(st.sampled_from(["sv", "sv", "dm"])),
+    n_min = draw(st.sampled_from([0, 1, 2, 2]))
+    return {"c": c, "sweep": draw(CG.sweep_trees(keys, depth=2, n_min=n_min)), "sim": draw(st.sampled_from(["sv", "sv", "dm"])),
             "reps": draw(st.sampled_from([1, 2, 3, 5])), "terminal": draw(st.booleans()), "split": draw(st.booleans())}
 
 
